@@ -33,6 +33,8 @@ pub struct RunOut {
     pub ops: Vec<Op>,
     pub stats: Stats,
     pub digest: u64,
+    /// cumulative event-log digest after each op (skipped ops repeat the previous value)
+    pub steplog: Vec<u64>,
 }
 
 /// The active property decides which violations are this check's to report.
@@ -48,6 +50,7 @@ pub fn exec<T: Payload>(prop: &str, cfg: &ExecCfg, mut next: impl FnMut(&World<T
     let (mut world, v0) = World::<T>::new(cfg.clone());
     world.deep_c06 = prop == "C06";
     let mut ops: Vec<Op> = Vec::new();
+    let mut steplog: Vec<u64> = Vec::new();
     let mut found: Option<Found> = None;
     let mut truncated = false;
     if let Some(v) = v0.into_iter().find(|v| owns(prop, v)) {
@@ -65,6 +68,7 @@ pub fn exec<T: Payload>(prop: &str, cfg: &ExecCfg, mut next: impl FnMut(&World<T
         }
         let out = world.step(&op);
         ops.push(op);
+        steplog.push(world.log.0);
         if out.skipped {
             continue;
         }
@@ -120,6 +124,7 @@ pub fn exec<T: Payload>(prop: &str, cfg: &ExecCfg, mut next: impl FnMut(&World<T
         ops,
         stats,
         digest,
+        steplog,
     }
 }
 
